@@ -73,6 +73,19 @@ fn cnum_i(x: i64) -> String {
     format!("ONum (VI {})", cz(x))
 }
 
+/// "simply dropped, on whichever thread": every other dropped timer goes out of scope while its thread is unwinding
+/// from a panic (std::thread::panicking() is true inside its Drop); the observation must be recorded all the same.
+fn drop_maybe_unwinding<T>(x: T, nanos: u64) {
+    if nanos % 2 == 1 {
+        let _ = std::panic::catch_unwind(std::panic::AssertUnwindSafe(move || {
+            let _guard = x;
+            panic!("unwinding on purpose");
+        }));
+    } else {
+        drop(x);
+    }
+}
+
 fn push_elapsed(secs: u64, nanos: u64) {
     #[cfg(prometheus_verif)]
     prometheus::verif_sync::push_elapsed_override(Duration::new(secs, nanos as u32));
@@ -253,13 +266,13 @@ fn step(slots: &mut Vec<H>, t: &mut Tok) -> String {
         "OpReset" => {
             let s = t.usize();
             match &slots[s] {
-                H::VCF(x) => x.reset(),
-                H::VCU(x) => x.reset(),
-                H::VGF(x) => x.reset(),
-                H::VGI(x) => x.reset(),
-                H::VH(x) => x.reset(),
-                H::CF(x) => x.reset(),
-                H::CU(x) => x.reset(),
+                H::VCF(x) => { let _ = x.reset(); }
+                H::VCU(x) => { let _ = x.reset(); }
+                H::VGF(x) => { let _ = x.reset(); }
+                H::VGI(x) => { let _ = x.reset(); }
+                H::VH(x) => { let _ = x.reset(); }
+                H::CF(x) => { let _ = x.reset(); }
+                H::CU(x) => { let _ = x.reset(); }
                 _ => return "OBad".to_string(),
             }
             "OUnit".to_string()
@@ -362,12 +375,12 @@ fn step(slots: &mut Vec<H>, t: &mut Tok) -> String {
         "OpFlush" => {
             let s = t.usize();
             match &slots[s] {
-                H::LCF(x) => x.flush(),
-                H::LCU(x) => x.flush(),
-                H::LH(x) => x.flush(),
-                H::LVCF(x) => x.flush(),
-                H::LVCU(x) => x.flush(),
-                H::LVH(x) => x.flush(),
+                H::LCF(x) => { let _ = x.flush(); }
+                H::LCU(x) => { let _ = x.flush(); }
+                H::LH(x) => { let _ = x.flush(); }
+                H::LVCF(x) => { let _ = x.flush(); }
+                H::LVCU(x) => { let _ = x.flush(); }
+                H::LVH(x) => { let _ = x.flush(); }
                 _ => return "OBad".to_string(),
             }
             "OUnit".to_string()
@@ -375,9 +388,9 @@ fn step(slots: &mut Vec<H>, t: &mut Tok) -> String {
         "OpClear" => {
             let s = t.usize();
             match &slots[s] {
-                H::LCF(x) => x.reset(),
-                H::LCU(x) => x.reset(),
-                H::LH(x) => x.clear(),
+                H::LCF(x) => { let _ = x.reset(); }
+                H::LCU(x) => { let _ = x.reset(); }
+                H::LH(x) => { let _ = x.clear(); }
                 _ => return "OBad".to_string(),
             }
             "OUnit".to_string()
@@ -486,7 +499,7 @@ fn step(slots: &mut Vec<H>, t: &mut Tok) -> String {
                                 "OUnit".to_string()
                             }
                             _ => {
-                                drop(x);
+                                drop_maybe_unwinding(x, nanos);
                                 "OUnit".to_string()
                             }
                         }
@@ -510,7 +523,7 @@ fn step(slots: &mut Vec<H>, t: &mut Tok) -> String {
                             "OUnit".to_string()
                         }
                         _ => {
-                            drop(x);
+                            drop_maybe_unwinding(x, nanos);
                             "OUnit".to_string()
                         }
                     }
@@ -527,8 +540,16 @@ fn step(slots: &mut Vec<H>, t: &mut Tok) -> String {
             let nanos = t.u64();
             push_elapsed(secs, nanos);
             let r = match &slots[s] {
-                H::Hist(x) => x.observe_closure_duration(|| 42u8),
-                H::LH(x) => x.observe_closure_duration(|| 42u8),
+                // the timed closure looks at the histogram it is timed on (a read only: the model is unaffected)
+                H::Hist(x) => x.observe_closure_duration(|| {
+                    let _ = x.get_sample_count();
+                    42u8
+                }),
+                H::LH(x) => x.observe_closure_duration(|| {
+                    let _ = x.get_sample_count();
+                    let _ = x.get_sample_sum();
+                    42u8
+                }),
                 _ => return "OBad".to_string(),
             };
             if r == 42 {
